@@ -26,6 +26,12 @@ pub enum Act {
     ReqS,
     /// self-aborting command: task B request -> event, task A request -> own AbortHandle
     ReqA,
+    /// request.then_stream(finite local stream).then_send
+    ReqT,
+    /// request.then_stream(finite local stream) consumed by hand in Command::new
+    ReqU,
+    /// request.then_request(request).then_stream(finite local stream).then_send
+    ReqV,
     Respond(usize),
     /// the shell drops the k-th outstanding one-shot request unresolved (hosts that hold typed
     /// requests); on the Core host followed by one no-op event = "one further core call"
@@ -104,6 +110,9 @@ pub enum OneKind {
     AbB,
     /// self-aborting command, task A (request -> abort the whole command)
     AbA,
+    /// first request of request.then_request.then_stream.then_send (its answer issues the
+    /// second request, which then behaves like `Cmd`)
+    Chain1,
 }
 
 /// The reference: logical state as a function of the history alone.
@@ -159,6 +168,9 @@ impl Ref {
         if self.oneshots.len() < b.max_oneshots {
             v.push(Act::ReqC);
             v.push(Act::ReqJ);
+            v.push(Act::ReqT);
+            v.push(Act::ReqU);
+            v.push(Act::ReqV);
             if bridge {
                 v.push(Act::ReqL);
             }
@@ -228,7 +240,9 @@ impl Ref {
             }
         };
         match a {
-            Act::ReqC => self.oneshots.push(OneKind::Cmd),
+            // in the reference these builder chains are one task with one request, like ReqC
+            Act::ReqC | Act::ReqT | Act::ReqU => self.oneshots.push(OneKind::Cmd),
+            Act::ReqV => self.oneshots.push(OneKind::Chain1),
             Act::ReqL => self.oneshots.push(OneKind::Legacy),
             Act::ReqJ => self.oneshots.push(OneKind::Join),
             Act::ReqS => {
@@ -241,6 +255,7 @@ impl Ref {
             }
             Act::Respond(k) => match self.oneshots.remove(k) {
                 OneKind::Cmd | OneKind::Legacy | OneKind::AbB => sat(&mut self.view.got),
+                OneKind::Chain1 => self.oneshots.push(OneKind::Cmd),
                 OneKind::AbA => {
                     // no output; the whole command is aborted, task B with it
                     for o in self.oneshots.iter_mut() {
@@ -266,7 +281,12 @@ impl Ref {
             },
             Act::Drop(k) | Act::BadAnswer(k) => match self.oneshots.remove(k) {
                 // the task is cancelled, nothing is delivered
-                OneKind::Cmd | OneKind::SelOrphan | OneKind::Sel | OneKind::AbA | OneKind::AbB => {}
+                OneKind::Cmd
+                | OneKind::SelOrphan
+                | OneKind::Sel
+                | OneKind::AbA
+                | OneKind::AbB
+                | OneKind::Chain1 => {}
                 OneKind::Legacy => h.dropped_legacy += 1,
                 // the child is cancelled, which concludes it: the parent carries on
                 OneKind::Join => sat(&mut self.view.got),
@@ -381,11 +401,10 @@ impl Ref {
         let sel = (count(OneKind::Sel) > 0) as usize;
         let ab = count(OneKind::AbA) + count(OneKind::AbB);
         let ab_cmd = (ab > 0) as usize;
-        let one_exec =
-            count(OneKind::Cmd) + count(OneKind::Legacy) + count(OneKind::Join) + sel + ab_cmd;
-        let one_cmd = count(OneKind::Cmd) + 2 * count(OneKind::Join) + sel + ab;
-        let one_tok =
-            count(OneKind::Cmd) + count(OneKind::Legacy) + 2 * count(OneKind::Join) + sel + ab;
+        let cmd_like = count(OneKind::Cmd) + count(OneKind::Chain1);
+        let one_exec = cmd_like + count(OneKind::Legacy) + count(OneKind::Join) + sel + ab_cmd;
+        let one_cmd = cmd_like + 2 * count(OneKind::Join) + sel + ab;
+        let one_tok = cmd_like + count(OneKind::Legacy) + 2 * count(OneKind::Join) + sel + ab;
         let lt_live = matches!(self.lt, LtP::Live | LtP::LiveCleared) as usize;
         let lt_req = lt_live + (self.lt == LtP::Orphan) as usize;
         let ct_reqs = match self.ct {
@@ -537,6 +556,9 @@ impl BridgeHost {
             Act::ReqJ => self.event(CEvent::ReqJ(Token::new())),
             Act::ReqS => self.event(CEvent::ReqS(Token::new())),
             Act::ReqA => self.event(CEvent::ReqA(Token::new())),
+            Act::ReqT => self.event(CEvent::ReqT(Token::new())),
+            Act::ReqU => self.event(CEvent::ReqU(Token::new())),
+            Act::ReqV => self.event(CEvent::ReqV(Token::new())),
             Act::Drop(_) => Err("the byte-level bridge cannot drop a request".into()),
             Act::BadAnswer(k) => {
                 let id = self.oneshots.remove(k);
@@ -688,6 +710,9 @@ impl DirectHost {
             Act::ReqJ => self.event(CEvent::ReqJ(Token::new())),
             Act::ReqS => self.event(CEvent::ReqS(Token::new())),
             Act::ReqA => self.event(CEvent::ReqA(Token::new())),
+            Act::ReqT => self.event(CEvent::ReqT(Token::new())),
+            Act::ReqU => self.event(CEvent::ReqU(Token::new())),
+            Act::ReqV => self.event(CEvent::ReqV(Token::new())),
             Act::Drop(k) => {
                 drop(self.oneshots.remove(k));
                 // the next poll of the commands (the way a test calls effects()/events())
@@ -851,6 +876,9 @@ impl CoreHost {
             Act::ReqJ => self.event(CEvent::ReqJ(Token::new())),
             Act::ReqS => self.event(CEvent::ReqS(Token::new())),
             Act::ReqA => self.event(CEvent::ReqA(Token::new())),
+            Act::ReqT => self.event(CEvent::ReqT(Token::new())),
+            Act::ReqU => self.event(CEvent::ReqU(Token::new())),
+            Act::ReqV => self.event(CEvent::ReqV(Token::new())),
             Act::Respond(k) => {
                 let mut r = self.oneshots.remove(k);
                 self.resolve(&mut r, COut(7, Token::new()))
@@ -1529,7 +1557,7 @@ pub fn run(tier: Tier, args: &[String]) -> i32 {
         "closed": closed_json,
         "state_cap": cap,
         "hosts": hosts_json,
-        "action_alphabet": "ReqC (Command-API one-shot), ReqL (legacy one-shot), ReqJ (task: spawn(child awaiting a shell request); join_handle.await; event), ReqS (one task awaiting select over two shell requests), ReqA (self-aborting command: task B request -> event, task A request -> the command's own AbortHandle, no output), Respond(k) for every outstanding one-shot k (also the orphaned member of a finished select), BadAnswer(k): an undecodable answer to the k-th outstanding one-shot on the Bridge host (must be rejected; the request is used up; followed by one no-op event), Drop(k): the shell drops the k-th outstanding one-shot unresolved (Command-API requests on both hosts, legacy requests on the typed-Core host) (direct and typed-Core hosts; on the Core host followed by one no-op event = one further core call; the bridge cannot drop), Sub, Unsub (AbortHandle kept in the model), Item (stream item; also after unsubscribe and after the task ended), Render, CTimerSet / CTimerClear (TimerHandle) / CTimerFire (answer NotifyAfter, also the orphaned one) / CTimerCleared (answer Clear), LTimerSet / LTimerClear (also after the timer finished) / LTimerFire; after EVERY explored path the host is dropped",
+        "action_alphabet": "ReqC (Command-API one-shot), ReqL (legacy one-shot), ReqJ (task: spawn(child awaiting a shell request); join_handle.await; event), ReqT (request.then_stream(finite local stream).then_send), ReqU (request.then_stream consumed by hand inside Command::new), ReqV (request.then_request.then_stream.then_send) - each with answer and drop / undecodable answer at every position, ReqS (one task awaiting select over two shell requests), ReqA (self-aborting command: task B request -> event, task A request -> the command's own AbortHandle, no output), Respond(k) for every outstanding one-shot k (also the orphaned member of a finished select), BadAnswer(k): an undecodable answer to the k-th outstanding one-shot on the Bridge host (must be rejected; the request is used up; followed by one no-op event), Drop(k): the shell drops the k-th outstanding one-shot unresolved (Command-API requests on both hosts, legacy requests on the typed-Core host) (direct and typed-Core hosts; on the Core host followed by one no-op event = one further core call; the bridge cannot drop), Sub, Unsub (AbortHandle kept in the model), Item (stream item; also after unsubscribe and after the task ended), Render, CTimerSet / CTimerClear (TimerHandle) / CTimerFire (answer NotifyAfter, also the orphaned one) / CTimerCleared (answer Clear), LTimerSet / LTimerClear (also after the timer finished) / LTimerFire; after EVERY explored path the host is dropped",
         "app_bounds": {"configurations (max outstanding one-shots, counters saturate at)": configs.iter().map(|c| (c.max_oneshots, c.sat)).collect::<Vec<_>>(), "live_subscriptions": 1, "command_api_timers": 1, "legacy_timers": 1},
         "state_key": "(reference: outstanding one-shots with their API in issue order, subscription phase, timer phases, expected view; gauges: registry once/many entries, executor task slots | live commands, sum of Command::verif_live_tasks, queued spawns/wake-ups/effects/events, cleared-timer-set size relative to the start of the path, live drop-tokens). Projected out because a listed finding makes them unbounded (each reported): `Never` registry entries (K3), cleared-set ids of timers cleared after they finished (K4), executor slots and tokens of legacy tasks whose request was dropped (accepted only when exactly one slot per dropped legacy request is stuck)",
         "oracle": "in every reachable state: registry once <= outstanding one-shot requests the shell holds, many <= subscriptions the shell has not been told are finished, never == 0; executor tasks / live commands / command tasks <= live pieces of work; cleared set <= cleared pending timers; live tokens <= tokens owned by live tasks (+ payloads of requests the harness holds); all queues empty after the call; after dropping the host 0 tokens; view == reference view; gauge BELOW the reference = reference error, reported under reference/*",
